@@ -223,6 +223,16 @@ def _acc(name):
                 prm = dict(ftype="Value-defined", reorg=v, cortime=50.0, T=300.0)
             return qr.CorrelationFunction(ta, prm, values=numpy.zeros(20, dtype=complex))
         return (sup, lambda o: float(o.get_reorganization_energy()), lambda o: float(o.lamb))
+    if name == "aggregate_electronic_hamiltonian":
+        def sup(v):
+            m1 = qr.Molecule(elenergies=[0.0, v])
+            with qr.energy_units("int"):
+                m2 = qr.Molecule(elenergies=[0.0, 2.0 * float(m1.elenergies[1])])
+            a = qr.Aggregate(molecules=[m1, m2])
+            a.build()
+            return a
+        return (sup, lambda o: float(o.get_electronic_Hamiltonian().data[1, 1]),
+                lambda o: float(o.monomers[0].elenergies[1]))
     if name == "hamiltonian_rwa_skeleton":
         # RWA block energies read back through get_RWA_skeleton under the reading units (the
         # round-trip clause reads the same object a second time under other units)
@@ -241,7 +251,8 @@ ACCESSORS = ["hamiltonian", "molecule_init", "molecule_set", "mode_init", "mode_
              "aggregate_transition", "hamiltonian_array", "molecule_init_array",
              "aggregate_coupling_matrix_array", "hamiltonian_first_read_in_eigenbasis",
              "state_energy", "state_vibenergy", "vibronic_state_energy", "corfce_values_reorg",
-             "corfce_values_reorg_composed", "hamiltonian_rwa_skeleton"]
+             "corfce_values_reorg_composed", "hamiltonian_rwa_skeleton",
+             "aggregate_electronic_hamiltonian"]
 POSITIVE_ONLY = {"hamiltonian_cutoff_remove", "corfce_reorg", "spectdens_reorg", "mode_init", "mode_set", "submode", "molecule_rwa",
                  "frequency_axis_step", "state_energy", "state_vibenergy", "vibronic_state_energy",
                  "corfce_values_reorg", "corfce_values_reorg_composed"}
@@ -340,6 +351,8 @@ def grid_cases(tier):
                         continue
                     if acc.startswith("hamiltonian_cutoff") and "nm" in (u1, u2):
                         continue        # multiples of a wavelength are not multiples of an energy
+                    if acc == "aggregate_electronic_hamiltonian" and "nm" in (u1, u2):
+                        continue        # the matrix holds zeros: no wavelength of zero energy
                     c = {"part": "G", "accessor": acc, "u_in": u1, "u_out": u2, "value": v}
                     if acc == "convert":
                         c["u3"] = units if tier == "thorough" else ["1/cm", "nm", "Ha"]
@@ -476,6 +489,13 @@ def call_menu():
         _prebuilt, lambda p: p[1].trace_over_vibrations(
             p[1].get_DensityMatrix(condition_type="thermal", temperature=300.0)))
     M["save/load"] = (_prebuilt, _saveload)
+    # public generators: the BODY of the caller's loop runs while the generator is suspended; the
+    # units there are the caller's (UWorld.call checks them in every iteration)
+    M["iterate:Aggregate.elstates"] = (_prebuilt, lambda p: p[1].elstates(mult=1))
+    M["iterate:Aggregate.allstates"] = (_prebuilt, lambda p: p[1].allstates(mult=1))
+    M["iterate:Aggregate.elsignatures"] = (_prebuilt, lambda p: p[1].elsignatures(mult=1))
+    M["Aggregate.get_electronic_Hamiltonian"] = (
+        _prebuilt, lambda p: p[1].get_electronic_Hamiltonian())
     return M
 
 
@@ -553,6 +573,32 @@ class UWorld:
         self.init["units"]["energy"] = units
         self.check("set-global-units")
 
+    def bad_request(self, which):
+        """A units request the library refuses (unknown name), through the public raw switches;
+        the caller handles the exception: the active units are what they were."""
+        try:
+            if which == "set_current_units-energy":
+                self.qr.set_current_units({"energy": "kcal/mol"})
+            elif which == "set_current_units-frequency":
+                self.qr.set_current_units({"frequency": "Hz"})
+            elif which == "manager-energy":
+                _mgr().set_current_units("energy", "cm-1")
+            elif which == "manager-length":
+                _mgr().set_current_units("length", "1/cm")
+            elif which == "context-energy":
+                self.qr.energy_units("kcal/mol").__enter__()
+            elif which == "convert-bad-target":
+                self.qr.convert(1.0, "1/cm", to="kcal/mol")
+            elif which == "convert-bad-value":
+                self.qr.convert(None, "eV", to="1/cm")
+            else:
+                raise isolation.HarnessError(which)
+        except isolation.HarnessError:
+            raise
+        except Exception:
+            pass
+        self.check("refused-request:" + which)
+
     def enter(self, typ, units):
         cm = self.qr.energy_units(units) if typ == "energy" else self.qr.length_units(units)
         cm.__enter__()
@@ -619,7 +665,14 @@ class UWorld:
             m.current_units = pre_stack_units
             m._in_eu_count, m._in_energy_units_context = c, fl
         try:
-            f(p)
+            if name.startswith("iterate:"):
+                n = 0
+                for _item in f(p):
+                    n += 1
+                    if n <= 3 and not self.check("loop-body-of:" + name[8:]):
+                        break
+            else:
+                f(p)
         except Exception as e:
             pass            # a refusal is fine for this property; the units are what counts
         ok = self.check("call:" + name)
@@ -670,6 +723,11 @@ def execute(hist):
         en.append(["prepare", "energy", "THz"])
         if execute.tier == "thorough":
             en.append(["prepare", "length", "nm"])
+    if sum(1 for op in hist if op[0] == "bad_request") < 1:
+        for which in ("set_current_units-energy", "set_current_units-frequency", "manager-energy",
+                      "manager-length", "context-energy", "convert-bad-target",
+                      "convert-bad-value"):
+            en.append(["bad_request", which])
     if depth > 0:
         en.append(["exit"])
         if nexc < cfg["nexc"]:
